@@ -575,6 +575,27 @@ class Interp:
             a = self.ev(n["args"][0], env)
             if isinstance(a, (int, float)) and not isinstance(a, bool):
                 return {"powi": lambda: recv ** a, "powf": lambda: recv ** a, "min": lambda: min(recv, a), "max": lambda: max(recv, a)}[m]()
+        if isinstance(recv, set) and len(n["args"]) == 1 and m == "extend":
+            a = self.ev(n["args"][0], env)
+            if isinstance(a, (set, list)):
+                for x in a:
+                    recv.add(x)
+                return ()
+        if isinstance(recv, set) and not n["args"] and m in ("iter", "into_iter", "len", "is_empty"):
+            return sorted(recv, key=repr) if m in ("iter", "into_iter") else (len(recv) if m == "len" else not recv)
+        if isinstance(recv, list) and len(n["args"]) == 1 and m == "extend":
+            a = self.ev(n["args"][0], env)
+            if isinstance(a, (set, list)):
+                recv.extend(sorted(a, key=repr) if isinstance(a, set) else a)
+                return ()
+        if isinstance(recv, list) and len(n["args"]) == 1 and m in ("push", "push_back"):
+            recv.append(self.ev(n["args"][0], env))
+            return ()
+        if isinstance(recv, list) and not n["args"] and m == "collect":
+            ty = str(n.get("ty", ""))
+            if "HashSet" in ty or "BTreeSet" in ty:
+                return set(recv)
+            return recv
         if isinstance(recv, set) and len(n["args"]) == 1 and m in ("contains", "insert", "remove"):
             a = self.ev(n["args"][0], env)
             if isinstance(a, (int, str, tuple)):
@@ -842,6 +863,12 @@ class Interp:
             return V(vname(n["callee"]), [self.ev(a, env) for a in n["args"]])
         if short(n.get("callee", ""), 2) in ("String::new", "String::with_capacity"):
             return ""
+        if short(n.get("callee", ""), 2) in ("HashSet::new", "BTreeSet::new", "HashSet::with_capacity", "HashSet::default"):
+            return set()
+        if short(n.get("callee", ""), 2) in ("HashMap::new", "BTreeMap::new", "HashMap::with_capacity", "HashMap::default"):
+            return HMap()
+        if short(n.get("callee", ""), 2) in ("Vec::new", "Vec::with_capacity", "VecDeque::new"):
+            return []
         if len(n["args"]) == 1 and (str(n.get("callee", "")).endswith("From<&str>>::from") or short(n.get("callee", ""), 2) in ("String::from", "From::from", "ToOwned::to_owned", "ToString::to_string", "PathBuf::from")):
             a = self.ev(n["args"][0], env)
             if isinstance(a, str):
